@@ -9,5 +9,7 @@ CONSTANTS
   MaxPolls = 4
   Vod = FALSE
   Fmp4 = FALSE
+  LL = FALSE
+  CanSkip = FALSE
 INVARIANTS Consecutive StartsRight OnlyListed NotTooLate EOSAfterLast ErrorsJustified ReloadBetween
 CHECK_DEADLOCK FALSE
